@@ -426,6 +426,13 @@ class Interproc:
             an.mag_variants = cfg.get("variants", frozenset())
             an.mag_calls = cfg.get("calls")
             an.mag_prop = cfg.get("prop")
+            # invariants that hold between commands but are broken and restored inside one (the cursor position): an inner
+            # helper may not rely on them for the trip count of a counting loop - its callers are asked instead
+            soft = cfg.get("soft")
+            if soft:
+                an.mag_pos = self.soft_inv_terms(b, soft)
+                if self.base(bid) not in cfg.get("roots", ()):
+                    an.mag_soft = an.mag_pos
         res = an.analyze(b)
         absdom.MAX_PARAM = 0
         written = None
@@ -537,11 +544,11 @@ class Interproc:
                 and (p[1] or not b.defs.get(p[0])) for p in places)
         if kind == "conj":
             vals = [x for (a, bb, c) in parts[0] for x in (a, bb)]
-        elif kind == "mag":
+        elif kind in ("mag", "maglo"):
             vals = list(parts[0])
         else:
             vals = [x for x in parts if isinstance(x, tuple) and x and x[0] in ("n", "iv")]
-        return kind in ("conj", "nz", "mag") and all(self._val_ok(b, v, written) for v in vals) \
+        return kind in ("conj", "nz", "mag", "maglo") and all(self._val_ok(b, v, written) for v in vals) \
             and any(v[0] == "n" and v[1] is not None for v in vals)
 
     # -- return summaries
@@ -778,6 +785,14 @@ class Interproc:
                 walk(ty["e"], i, ("*",), 0)
         return out
 
+    def soft_inv_terms(self, b, soft):
+        keep = self.invariants
+        try:
+            self.invariants = [i for i in (keep or []) if (i[0], tuple(i[1])) in soft]
+            return frozenset(t for t, lo, hi in self._inv_terms(b))
+        finally:
+            self.invariants = keep
+
     def _num_leaves(self, tix, prefix=(), depth=0):
         T = self.f.types
         ty = T[tix]
@@ -935,12 +950,13 @@ class Interproc:
             i = st.val_iv(dv)
             ok = (i[0] is not None and i[0] > 0) or (i[1] is not None and i[1] < 0)
             return ok, ("nz", dv), None
-        if lf.kind == "mag":
+        if lf.kind in ("mag", "maglo"):
             dvs = [self.instantiate_val(an, ctx, x) for x in lf.parts[0]]
             dvs = [x for x in dvs if x is not None]
             if not dvs:
                 return False, None, None
-            return any(an.mag_bounded(st, x) for x in dvs), ("mag", dvs), None
+            lo = lf.kind == "maglo"
+            return any(not an.mag_parts(st, x, lo, soft=True) for x in dvs), (lf.kind, dvs), None
         return False, None, None
 
     def assume_lifted(self, an, ctx, lf, lift, cond):
@@ -989,25 +1005,36 @@ class Interproc:
                 inst_lift = lift
                 nl = None
                 raw_un = lift[1] if (not ok and lift is not None and lift[0] == "conj") else None
-                if lift is not None and lift[0] == "mag":
-                    raw_un = ("mag", lift[1], (not ok) and any(an.mag_tainted(ctx.st, x) for x in lift[1]))
+                extra = []
+                if lift is not None and lift[0] in ("mag", "maglo"):
+                    raw_un = (lift[0], lift[1], (not ok) and any(an.mag_tainted(ctx.st, x) for x in lift[1]))
                 if not ok and lift is not None:
                     if lift[0] == "conj":
                         an.cur_dirty = ctx.st.dirty
                         lift = an.conj_lift(lift[1], ctx.st)
-                    elif lift[0] == "mag":
-                        ws = []
-                        for w in lift[1]:
-                            w = ctx.st.norm(w) if (w[0] == "n" and w[1] is not None) else w
-                            if w[0] == "n" and w[1] is not None and an.liftable_term(w[1], ctx.st.dirty):
-                                ws.append(w)
-                        lift = ("mag", ws) if ws else None
+                    elif lift[0] in ("mag", "maglo"):
+                        # the unbounded leaves of the (first) candidate, each lifted on its own
+                        an.cur_dirty = ctx.st.dirty
+                        leaves = an.mag_parts(ctx.st, lift[1][0], lift[0] == "maglo", soft=True)
+                        lifts = []
+                        for (lv, llo) in leaves:
+                            cs = an.mag_cands(ctx.st, lv, llo)
+                            lifts.append((("maglo" if llo else "mag", cs) if cs else None, lv, llo))
+                        lift = lifts[0][0] if lifts else None
+                        if lifts:
+                            raw_un = ("maglo" if lifts[0][2] else "mag", [lifts[0][1]], an.mag_tainted(ctx.st, lifts[0][1]))
+                        extra = lifts[1:]
                     if lift is not None:
                         nl = Lifted(lf.cls, lift[0], lift[1:], lf.origin, lf.desc, lf.what, lf.file, lf.line, lf.chain + [an.b.id], lf.must)
                 if an.collect:
                     lo = _lifted_obl(ctx, lf, ok, nl, an)
                     lo.raw = raw_un
                     an.res.obls.append(lo)
+                    for (xl, xv, xlo) in extra:
+                        xn = Lifted(lf.cls, xl[0], xl[1:], lf.origin, lf.desc, lf.what, lf.file, lf.line, lf.chain + [an.b.id], lf.must) if xl is not None else None
+                        xo = _lifted_obl(ctx, lf, False, xn, an)
+                        xo.raw = ("maglo" if xlo else "mag", [xv], an.mag_tainted(ctx.st, xv))
+                        an.res.obls.append(xo)
                 if len(cands) == 1:
                     post.append((lf, inst_lift, cond))
         # 2. effects
